@@ -13,6 +13,7 @@ number of entries in the reference map. Expectations (the property statement):
 """
 import os
 from . import lib
+from . import c18_util as U
 
 FIELDS = ['id', 'name', 'pos', 'pair', 'color', 'flag', 'big', 'f', 'opt', 'left', 'right', 'leaf', 'bytes', 'longs', 'colors',
           'structs', 'pairs', 'strs', 'nodes', 'leaves', 'any', 'anys', 'nested', 'nested8']
@@ -239,6 +240,17 @@ def clone_part(ctx):
                 for mask in (ALL, rng.getrandbits(len(FIELDS)), 1 << rng.randrange(len(FIELDS))):
                     add_case(klass, feats, P, root, mode, mask, rng.choice([1, 1, 0]))
 
+    if ctx.replay_in:
+        import json
+        rp = json.load(open(ctx.replay_in))
+        if 'harness_line' in rp:
+            rep = U.run_capped(H, [rp['harness_line']])[0]
+            ctx.log('replay: ' + rp['harness_line'][:300]); ctx.log('reply:  ' + rep[:2000])
+            ctx.count(rp['harness_line'], klass='replay')
+            okr = rep.startswith('OK') and ' dstv=0 ' in rep and ' val=1 ' in rep and ' extra=0 ' in rep and (' share=1 ' in rep or rp.get('refmap') == 0)
+            if not okr:
+                ctx.violation(rp.get('key', 'clone-replay'), 'replayed clone case still fails: ' + rep[:300], {'harness_line': rp['harness_line'], 'reply': rep[:3000], 'refmap': rp.get('refmap')})
+        return
     # minimal inputs of the defects found while building this check (first, so that the replay files carry them)
     P = Prog(); s0 = P.add('S', '6869'); lf = P.add('LF', 'name=0', [s0]); nv = P.add('NV', '', [])
     n = P.add('N', 'leaf=1,nodes=2', (), {'leaf': [lf], 'nodes': [nv]})
@@ -249,12 +261,12 @@ def clone_part(ctx):
     add_case('uvec_none', {'unone'}, P, n, 'clone', ALL, 0)
     P = Prog(); n8 = P.add('N8', '77'); n = P.add('N', 'id=1,nested8=0', (), {'nested8': [n8]})
     add_case('nested8', {'nested8'}, P, n, 'clone', ALL, 0)
-    family('dag', set(), 120 if T else 28, [3, 8, 15, 30, 60])
-    family('dag_ux', {'ux'}, 40 if T else 8, [10, 25, 40])
-    family('empty_vec', {'empty'}, 40 if T else 10, [3, 8, 15, 30])
-    family('union_string', {'ustr'}, 16 if T else 5, [6, 15])
-    family('uvec_none', {'unone'}, 16 if T else 5, [6, 15])
-    family('nested8', {'nested8'}, 30 if T else 8, [4, 10, 20])
+    family('dag', set(), 500 if T else 28, [3, 8, 15, 30, 60])
+    family('dag_ux', {'ux'}, 150 if T else 8, [10, 25, 40])
+    family('empty_vec', {'empty'}, 120 if T else 10, [3, 8, 15, 30])
+    family('union_string', {'ustr'}, 40 if T else 5, [6, 15])
+    family('uvec_none', {'unone'}, 40 if T else 5, [6, 15])
+    family('nested8', {'nested8'}, 80 if T else 8, [4, 10, 20])
     # fixed small cases (also documentation of the protocol)
     for use_map in (1, 0):
         P = Prog(); s = P.add('S', '6869'); lf = P.add('LF', 'name=0,val=3', [s])
@@ -266,7 +278,7 @@ def clone_part(ctx):
     chunks = [list(range(k, len(lines), 12)) for k in range(12)]
     import concurrent.futures as cf
     with cf.ThreadPoolExecutor(max_workers=12) as ex:
-        futs = [ex.submit(lambda idx=idx: lib.run_harness_resilient(H, [lines[i] for i in idx], timeout=600)) for idx in chunks]
+        futs = [ex.submit(lambda idx=idx: U.run_capped(H, [lines[i] for i in idx], max_crashes=6)) for idx in chunks]
         res = {}
         for idx, f in zip(chunks, futs):
             for i, r in zip(idx, f.result()): res[i] = r
@@ -275,6 +287,7 @@ def clone_part(ctx):
     for i, (klass, feats, P, root, mode, mask, use_map, line) in enumerate(cases):
         ctx.count(line, klass='clone_%s_%s_%s' % (klass, mode, 'map' if use_map else 'nomap'))
         r = res[i]
+        if r == 'SKIP': continue
         dkey = {'union_string': 'clone-union-string', 'uvec_none': 'clone-union-vector-none', 'nested8': 'clone-nested-alignment'}.get(klass)
         what_extra = {'union_string': ' [source holds a string as union member]', 'uvec_none': ' [source holds a NONE element in a union vector]',
                       'nested8': ' [source holds a nested buffer with 8-byte aligned content]'}.get(klass, '')
